@@ -190,7 +190,7 @@ def run(ctx):
         cases, unsupported = expand(descs, seeds, forms)
         cases.sort(key=lambda c: (c["carrier"], str(c["locus"]), c["mutation"]))
         rng.shuffle(cases)
-        budget = 110 if ctx.quick else 1500
+        budget = int(os.environ.get("VERIF_C22_BUDGET", 110 if ctx.quick else 1500))
         results = []
         t0 = time.time()
         done = 0
